@@ -56,6 +56,16 @@ CHECKS = {
         text="TLC checks on the specification, for every grammar/input of the family and all pairs of lookaheads in {0,1,2,3,4,50,-1}, that a success at k is reproduced identically at every stronger k'; the same relation is demanded of the real parser's outcomes.",
         note="Verdict from the relation on real outcomes; disagreement with Meaning is MODEL-DRIFT.",
         ref="4/C13"),
+    "C17": dict(
+        technique="TLA+ spec Conv (strconv integer syntax and range as digit-sequence recogniser) evaluated by TLC over boundary texts of every integer kind; each text captured into real fields (plain/pointer/named/slice, single or joined tokens) and compared; floats against a logged strconv.ParseFloat oracle",
+        text="For every integer kind and every boundary text (max, max+1, min, min-1 in bases 10/16/8/2, prefixes, signs, underscores valid and invalid, leading zeros) TLC decides acceptance and the normalised value from Conv.tla; the real parser must accept exactly those, store exactly that value, and otherwise fail with a participle.Error located at the first captured token that names the conversion. Conv.tla itself is cross-checked against strconv on every case (disagreement = infrastructure failure).",
+        note="Float conversion exactness is NOT decided by the specification (TLC has no floats): strconv.ParseFloat with the declared kind's bit size is a logged oracle. The capture protocol around a failing conversion is decided by Meaning (C01/C02 families with int8 fields).",
+        ref="4/C17, 3.10, 8"),
+    "C06": dict(
+        technique="TLA+ spec Meaning decides success/failure on the real token streams of every byte string up to a bound for a family of grammars; harness evaluates the error well-formedness predicate, panics and hangs; example grammars under seeded mutation; deep/long inputs in stack-limited child processes",
+        text="Every byte string up to the bound over an alphabet with one representative per byte class is lexed by the real lexer; TLC evaluates Meaning on the resulting token stream and the real parse must succeed exactly when the meaning does, never panic or hang, and return errors satisfying ErrOK (participle.Error, filename, offset in bounds, line/column consistent, unexpected token present in the stream, text = position + message, nil AST on lexing failure, partial AST on parse failure). Realistic grammars (JSON, expression, INI, stateful interpolation) are driven with seeded mutations and with nested (300+) and flat (20000+) inputs in child processes under a stack limit.",
+        note="Long/deep inputs are executed on the real code only (TLC does not re-evaluate them). Error identity is not judged. ErrOK is computed by the harness from the public error API.",
+        ref="4/C06"),
     "C16": dict(
         technique="TLA+ spec StatefulLexer (Expand, Symbols, RoundTripStable invariant) checked by TLC; marshalled documents compared with the specification's serialised form; MC_StatefulLexer expectations replayed against definitions rebuilt from both JSON routes",
         text="TLC checks that include expansion is idempotent and the symbol table stable when expanded rules are fed back, and prints the serialised form and the expected streams; the harness compares json.Marshal(def) and json.Marshal(def.Rules()) with that form (order, byte-exact names and patterns, action kinds and targets), and replays all inputs up to the bound on lexer.New(unmarshal(...)) for both routes, comparing streams and symbol tables with the original.",
